@@ -47,7 +47,7 @@ def gen_case(rng, tier, idx):
         cfg = dict(heur=h, eps=rng.choice((1e-2, 1e-3)), rao=True, seed=rng.choice((0, 1, 9)),
                    reuse=None, alias='shared')
     else:
-        spec = gen_mdp_spec(rng, extreme=True, **_size(rng), proper=True, discounts=(0.999,) if rng.random() < 0.02 else (0.5, 0.9, 0.95, 1.0, 1.0), uniform_actions=rng.random() < 0.3,
+        spec = gen_mdp_spec(rng, extreme=True, leftover_abs=rng.random() < 0.12, **_size(rng), proper=True, discounts=(0.999,) if rng.random() < 0.02 else (0.5, 0.9, 0.95, 1.0, 1.0), uniform_actions=rng.random() < 0.3,
                             rewards=rng.choice((None, None, (-2.0, -1.0, -1.0, 0.0, 1.0, 0.5), (-1.0, -2.0, -1.0, -3.0), (0.0, -1.0), (0.0,))))
         cfg = dict(heur=gen_heuristic(rng), eps=(10.0 if rng.random() < 0.6 else 1e-9) if rng.random() < 0.04 else rng.choice((1e-2, 1e-3, 1e-5)), rao=rng.random() < 0.6, seed=rng.choice((0, 1, 9, None)),
                    reuse=rng.randrange(1000) if rng.random() < 0.2 else None, alias=rng.choice(('fresh', 'fresh', 'cached', 'shared', 'tuple')), cap_exact=rng.random() < 0.25,
